@@ -528,3 +528,29 @@ def geom_line(rng, c, mode=None, r='g1'):
     if rng.random() < 0.25 and c.spord >= 1:
         ln += ' render=%d' % rng.randint(max(0, c.spord - 2), c.spord)
     return ln
+
+
+def file_variants(rng, h, p=0.3):
+    """Glue around the file formats: the same history with some files turned into legal FOREIGN / LEGACY
+    variants and some reads made through other entry points.  The model ignores the extra tokens (the
+    meaning of the file is the same); the real side (real.py) applies a variant only where it is legal:
+      write     variant=nosentinel  SENTINEL keyword removed (float map with the default sentinel: old files)
+      hpxwrite  variant=ring        explicit HEALPix file re-written with RING-ordered PIXEL column
+                variant=nobad       BAD_DATA keyword removed (float map with the default sentinel)
+      moc       variant=mocvers     PIXTYPE removed: a MOC recognised by its MOCVERS keyword only
+      read / hpxread / mocread / dor   header=1: read(..., header=True)
+    """
+    out = []
+    for ln in h:
+        op = ln.split(' ', 1)[0]
+        if rng.random() < p:
+            if op == 'write':
+                ln += ' variant=nosentinel'
+            elif op == 'hpxwrite':
+                ln += ' variant=' + rng.choice(['ring', 'nobad', 'ring+nobad'])
+            elif op == 'moc':
+                ln += ' variant=mocvers'
+            elif op in ('read', 'hpxread', 'mocread', 'dor'):
+                ln += ' header=1'
+        out.append(ln)
+    return out
